@@ -663,17 +663,17 @@ SSVectorBase<R>& SSVectorBase<R>::assign2productShort(const SVSetBase<S>& A,
    int nonzero_idx = 0;
    int xsize = x.size();
    int Aisize;
+   const int A0size = A0.size();
 
-   num = A0.size();
-
-   if(isZero(x0, this->tolerances()->epsilon()) || num == 0)
+   if(isZero(x0, this->tolerances()->epsilon()) || A0size == 0)
    {
       // A[0] == 0 or x[0] == 0 => this := zero vector
+      // (num must still describe the old content here, otherwise clear() walks over stale indices)
       clear();
    }
    else
    {
-      for(int j = 0; j < num; ++j)
+      for(int j = 0; j < A0size; ++j)
       {
          const Nonzero<S>& elt = A0.element(j);
          const R product = x0 * elt.val;
